@@ -1,10 +1,9 @@
 // Correspondence driver for posit<nbits,es>: runs the public API and prints raw bits.
-// Build variants:  -DGRP_ARITH  (+ - * / reciprocal neg abs)      [C01]
-//                  -DGRP_CMP    (six comparisons, ++, --)          [C06]
-//                  -DGRP_CONV   (from/to native types)             [C03, C04]
-//                  -DGRP_SQRT   (sqrt)                             [C17]
-//                  -DFAST=1     compile with POSIT_FAST_SPECIALIZATION  [C11]
-//                  -DTHROWING=1 POSIT_THROW_ARITHMETIC_EXCEPTION   [C19]
+// groups (--group): arith (+ - * / reciprocal neg abs)   [C01]
+//                   cmp   (six comparisons, ++, --)        [C06]
+//                   conv  (from/to native types)           [C03, C04]
+//                   sqrt                                   [C17]
+// build variants:   -DFAST=1 POSIT_FAST_SPECIALIZATION [C11]; -DTHROWING=1 POSIT_THROW_ARITHMETIC_EXCEPTION [C19]
 #ifdef FAST
 #define POSIT_FAST_SPECIALIZATION 1
 #endif
@@ -12,93 +11,94 @@
 #define POSIT_THROW_ARITHMETIC_EXCEPTION 1
 #endif
 #include <universal/number/posit/posit.hpp>
-#include <iostream>
-#include <memory>
-#include <map>
-#include "common.hpp"
-
+#include <cmath>
+#include "drvkit.hpp"
 using namespace sw::universal;
 
-struct Runner {
-	unsigned n, es;
-	virtual ~Runner() {}
-	// returns result fields (hex), or a string starting with '!' for an exception
-	virtual std::string run(int op, const std::vector<std::string>& a) = 0;
-};
+static std::string g_group = "arith";
 
-static uint64_t hexu(const std::string& s) { return strtoull(s.c_str(), nullptr, 16); }
+#include "posit_gen.hpp"
 
 template <unsigned N, unsigned ES>
 struct R : Runner {
-	using P = posit<N, ES>;
-	R() { n = N; es = ES; }
-	static P mk(const std::string& h) {
-		P p;
-		if constexpr (N <= 64) { p.setbits(hexu(h)); }
-		else {
-			internal::bitblock<N> bb;
-			unsigned L = (unsigned)h.size();
-			for (unsigned i = 0; i < N; ++i) {
-				unsigned d = i / 4;
-				if (d >= L) break;
-				char c = h[L - 1 - d];
-				unsigned v = (c <= '9') ? c - '0' : c - 'a' + 10;
-				bb.set(i, (v >> (i % 4)) & 1);
+	using T = posit<N, ES>;
+	struct Tr {
+		static T mk(const std::string& h) {
+			T p;
+			if constexpr (N <= 64) { p.setbits(hexu64(h)); }
+			else {
+				internal::bitblock<N> bb;
+				unsigned L = (unsigned)h.size();
+				for (unsigned i = 0; i < N; ++i) {
+					unsigned d = i / 4;
+					if (d >= L) break;
+					char c = h[L - 1 - d];
+					unsigned v = (c <= '9') ? c - '0' : c - 'a' + 10;
+					bb.set(i, (v >> (i % 4)) & 1);
+				}
+				p.setBitblock(bb);
 			}
-			p.setBitblock(bb);
+			return p;
 		}
-		return p;
-	}
-	static std::string out(const P& p) {
-		auto bb = p.get();
-		return hex_from_bits(N, [&](unsigned i) { return bb.test(i); });
+		static std::string out(const T& p) {
+			auto bb = p.get();
+			return hex_from_bits(N, [&](unsigned i) { return bb.test(i); });
+		}
+	};
+	R(bool sm) {
+		fam = FAM_posit; nbits = N; small = sm;
+		cfg = std::to_string(N) + "," + std::to_string(ES);
+		if (g_group == "arith") { ops1 = {OP_rcp, OP_neg, OP_abs}; ops2 = {OP_add, OP_sub, OP_mul, OP_div}; }
+		if (g_group == "cmp") { ops1 = {OP_inc, OP_dec}; ops2 = {OP_eq, OP_ne, OP_lt, OP_le, OP_gt, OP_ge}; }
+		if (g_group == "conv") { ops1 = {OP_to_f64, OP_to_f32, OP_to_f64_rt}; }
+		if (g_group == "sqrt") { ops1 = {OP_sqrt}; }
+		if (g_group == "all1") { ops1 = {OP_rcp, OP_neg, OP_abs, OP_inc, OP_dec, OP_sqrt, OP_to_f64, OP_to_f32}; ops2 = {OP_add, OP_sub, OP_mul, OP_div, OP_eq, OP_ne, OP_lt, OP_le, OP_gt, OP_ge}; }
 	}
 	std::string run(int op, const std::vector<std::string>& a) override {
-		try {
-			P x = mk(a[0]);
+		return guarded([&]() -> std::string {
+			if (op >= OP_from_f32 && op <= OP_to_f80) return native_conv<T, Tr>(op, a);
+			T x = Tr::mk(a[0]);
 			switch (op) {
-#ifdef GRP_ARITH
-			case OP_add: return out(x + mk(a[1]));
-			case OP_sub: return out(x - mk(a[1]));
-			case OP_mul: return out(x * mk(a[1]));
-			case OP_div: return out(x / mk(a[1]));
-			case OP_rcp: return out(x.reciprocal());
-			case OP_neg: return out(-x);
-			case OP_abs: return out(abs(x));
-#endif
-#ifdef GRP_CMP
-			case OP_eq: return (x == mk(a[1])) ? "1" : "0";
-			case OP_ne: return (x != mk(a[1])) ? "1" : "0";
-			case OP_lt: return (x < mk(a[1])) ? "1" : "0";
-			case OP_le: return (x <= mk(a[1])) ? "1" : "0";
-			case OP_gt: return (x > mk(a[1])) ? "1" : "0";
-			case OP_ge: return (x >= mk(a[1])) ? "1" : "0";
-			case OP_inc: { ++x; return out(x); }
-			case OP_dec: { --x; return out(x); }
-#endif
-#ifdef GRP_SQRT
-			case OP_sqrt: return out(sqrt(x));
-#endif
-			default: break;
+			case OP_add: return Tr::out(x + Tr::mk(a[1]));
+			case OP_sub: return Tr::out(x - Tr::mk(a[1]));
+			case OP_mul: return Tr::out(x * Tr::mk(a[1]));
+			case OP_div: return Tr::out(x / Tr::mk(a[1]));
+			case OP_rcp: return Tr::out(x.reciprocal());
+			case OP_neg: return Tr::out(-x);
+			case OP_abs: return Tr::out(abs(x));
+			case OP_sqrt: return Tr::out(sqrt(x));
+			case OP_inc: { ++x; return Tr::out(x); }
+			case OP_dec: { --x; return Tr::out(x); }
+			case OP_eq: return b01(x == Tr::mk(a[1]));
+			case OP_ne: return b01(x != Tr::mk(a[1]));
+			case OP_lt: return b01(x < Tr::mk(a[1]));
+			case OP_le: return b01(x <= Tr::mk(a[1]));
+			case OP_gt: return b01(x > Tr::mk(a[1]));
+			case OP_ge: return b01(x >= Tr::mk(a[1]));
+			default: return "?";
 			}
-		} catch (const std::exception& e) {
-			return std::string("!") + typeid(e).name();
-		} catch (...) {
-			return "!unknown";
-		}
-		return "?";
+		});
 	}
+	void extra(const std::string& ha, Rng& g, const std::function<void(int, std::vector<std::string>)>& emit) override {
+		if (g_group != "conv" && g_group != "all1") return;
+		bool first = ha.find_first_not_of('0') == std::string::npos;
+		T x = Tr::mk(ha); T y = x; ++y;
+		native_sources(double(x), double(y), first, g, emit);
+		emit(OP_to_int, {"20", ha}); emit(OP_to_int, {"40", ha});
+	}
+	std::vector<bool> gen(Rng& g) override { return gen_operand(g, N); }
 };
 
-#ifdef GRP_CONV
-// native conversions are in a separate template to keep the arithmetic build small
-#endif
+template <unsigned N, unsigned ES> static void regS() { g_runners.emplace_back(new R<N, ES>(true)); }
+template <unsigned N, unsigned ES> static void regL() { g_runners.emplace_back(new R<N, ES>(false)); }
 
-static std::vector<std::unique_ptr<Runner>> g_small, g_large;
-template <unsigned N, unsigned ES> static void regS() { g_small.emplace_back(new R<N, ES>()); }
-template <unsigned N, unsigned ES> static void regL() { g_large.emplace_back(new R<N, ES>()); }
-
-static void registry() {
+int main(int argc, char** argv) {
+	g_group = parse_group(argc, argv, g_group);
+#ifdef FASTSET
+	// exactly the configurations that have fast specialisations
+	regS<2,0>(); regS<3,0>(); regS<3,1>(); regS<4,0>(); regS<8,0>(); regS<8,1>(); regS<8,2>();
+	regL<16,1>(); regL<16,2>(); regL<32,2>();
+#else
 #ifndef NO_SMALL
 	regS<2,0>(); regS<3,0>(); regS<3,1>(); regS<4,0>(); regS<4,1>(); regS<4,2>();
 	regS<5,0>(); regS<5,1>(); regS<5,2>(); regS<5,3>();
@@ -109,6 +109,9 @@ static void registry() {
 #ifdef WITH_MID
 	regS<9,0>(); regS<9,1>(); regS<9,2>(); regS<10,0>(); regS<10,1>(); regS<10,2>(); regS<10,3>();
 #endif
+#ifdef WITH_16
+	regS<12,1>(); regS<16,1>(); regS<16,2>(); regS<14,0>();
+#endif
 #ifndef NO_LARGE
 	regL<11,0>(); regL<12,1>(); regL<13,2>(); regL<16,0>(); regL<16,1>(); regL<16,2>(); regL<16,3>(); regL<17,1>();
 	regL<20,1>(); regL<24,2>(); regL<28,3>(); regL<32,0>(); regL<32,1>(); regL<32,2>(); regL<32,3>(); regL<33,2>();
@@ -117,151 +120,6 @@ static void registry() {
 	regL<80,2>(); regL<128,4>();
 #endif
 #endif
-}
-
-static const int OPS2[] = {
-#ifdef GRP_ARITH
-	OP_add, OP_sub, OP_mul, OP_div,
 #endif
-#ifdef GRP_CMP
-	OP_eq, OP_ne, OP_lt, OP_le, OP_gt, OP_ge,
-#endif
-};
-static const int OPS1[] = {
-#ifdef GRP_ARITH
-	OP_rcp, OP_neg, OP_abs,
-#endif
-#ifdef GRP_CMP
-	OP_inc, OP_dec,
-#endif
-#ifdef GRP_SQRT
-	OP_sqrt,
-#endif
-};
-
-static void emit(Runner& r, int op, const std::vector<std::string>& a) {
-	std::string res = r.run(op, a);
-	printf("%d %u,%u %d ", FAM_posit, r.n, r.es, op);
-	for (size_t i = 0; i < a.size(); ++i) printf("%s%s", i ? "," : "", a[i].c_str());
-	printf(" %s\n", res.c_str());
-}
-
-// width-n pattern as hex from up to 128 bits of randomness / structure
-static std::string pat(unsigned n, const std::vector<bool>& bits) {
-	return hex_from_bits(n, [&](unsigned i) { return (bool)bits[i]; });
-}
-
-// structured operand generator: specials, extremes, every regime length with
-// empty/zero/ones/random/sparse tails
-static std::vector<bool> gen_operand(Rng& g, unsigned n) {
-	std::vector<bool> b(n, false);
-	unsigned k = (unsigned)g.below(16);
-	auto setmag = [&](const std::vector<bool>& m, bool neg) {   // m: n-1 magnitude bits, two's complement if neg
-		std::vector<bool> v(n, false);
-		for (unsigned i = 0; i + 1 < n; ++i) v[i] = m[i];
-		if (neg) {   // two's complement: invert, add one
-			for (unsigned i = 0; i < n; ++i) v[i] = !v[i];
-			bool c = true;
-			for (unsigned i = 0; i < n && c; ++i) { bool t = v[i]; v[i] = !t; c = t; }
-		}
-		return v;
-	};
-	std::vector<bool> m(n - 1, false);
-	bool neg = g.below(2);
-	switch (k) {
-	case 0: return b;                                   // zero
-	case 1: b[n - 1] = true; return b;                  // NaR
-	case 2: m[0] = true; return setmag(m, neg);         // +-minpos
-	case 3: for (auto&& x : m) x = true; return setmag(m, neg);   // +-maxpos
-	case 4: if (n >= 2) m[n - 2] = true; return setmag(m, neg);   // +-1
-	case 5: { if (n >= 2) m[n - 2] = true; if (g.below(2)) m[0] = true; else { m[n - 2] = false; for (unsigned i = 0; i + 2 < n; ++i) m[i] = true; } return setmag(m, neg); } // 1 +- ulp
-	case 6: case 7: {                                   // uniform random encoding
-		for (unsigned i = 0; i < n; ++i) b[i] = g.below(2);
-		return b; }
-	default: {                                          // regime run r, tail class
-		unsigned L = n - 1;
-		unsigned r = 1 + (unsigned)g.below(L);          // run length 1..L
-		bool ones = g.below(2);
-		unsigned pos = L;                               // next bit index to fill (exclusive), msb first
-		for (unsigned i = 0; i < r && pos > 0; ++i) m[--pos] = ones;
-		if (pos > 0) m[--pos] = !ones;                  // terminator
-		unsigned tail = pos;
-		unsigned cls = (unsigned)g.below(5);
-		for (unsigned i = 0; i < tail; ++i) {
-			switch (cls) {
-			case 0: m[i] = false; break;
-			case 1: m[i] = true; break;
-			case 2: m[i] = g.below(2); break;
-			case 3: m[i] = (i + 4 >= tail) ? g.below(2) : false; break;     // sparse: only top bits
-			default: m[i] = (i < 2) ? g.below(2) : ((i + 3 >= tail) ? g.below(2) : false); break;  // top + bottom bits
-			}
-		}
-		bool allz = true; for (auto x : m) allz = allz && !x;
-		if (allz) m[0] = true;
-		return setmag(m, neg);
-	}
-	}
-}
-
-static std::vector<bool> tweak(Rng& g, const std::vector<bool>& a, unsigned n) {
-	// related second operand: equal, negated, +-1 encoding step, or independent
-	std::vector<bool> b = a;
-	auto add1 = [&](std::vector<bool>& v, bool up) {
-		bool c = true;   // up: add one (flip while old bit was 1); down: subtract one (flip while old bit was 0)
-		for (unsigned i = 0; i < n && c; ++i) { bool t = v[i]; v[i] = !t; c = up ? t : !t; }
-	};
-	auto negate = [&](std::vector<bool>& v) { for (unsigned i = 0; i < n; ++i) v[i] = !v[i]; add1(v, true); };
-	switch (g.below(8)) {
-	case 0: return b;
-	case 1: negate(b); return b;
-	case 2: add1(b, true); return b;
-	case 3: add1(b, false); return b;
-	case 4: negate(b); add1(b, g.below(2)); return b;
-	default: return gen_operand(g, n);
-	}
-}
-
-int main(int argc, char** argv) {
-	Args A = parse_args(argc, argv);
-	registry();
-	if (A.mode == "exh") {
-		for (auto& r : g_small) {
-			uint64_t NN = 1ull << r->n;
-			for (uint64_t a = A.shard; a < NN; a += A.nshards) {
-				std::string ha = hex64(a);
-				for (int op : OPS1) emit(*r, op, {ha});
-				for (uint64_t b = 0; b < NN; ++b) {
-					std::string hb = hex64(b);
-					for (int op : OPS2) emit(*r, op, {ha, hb});
-				}
-			}
-		}
-	} else if (A.mode == "rnd") {
-		unsigned idx = 0;
-		for (auto& r : g_large) {
-			if ((idx++ % A.nshards) != A.shard) continue;
-			Rng g(A.seed * 0x100000001b3ull + r->n * 131 + r->es);
-			for (uint64_t i = 0; i < A.count; ++i) {
-				auto a = gen_operand(g, r->n);
-				auto b = tweak(g, a, r->n);
-				std::string ha = pat(r->n, a), hb = pat(r->n, b);
-				for (int op : OPS1) emit(*r, op, {ha});
-				for (int op : OPS2) emit(*r, op, {ha, hb});
-			}
-		}
-	} else if (A.mode == "cases") {
-		// replay: lines "<fam> <n>,<es> <op> <args>[ <ignored>]"
-		char buf[4096];
-		while (fgets(buf, sizeof buf, stdin)) {
-			unsigned fam, n, es; int op; char args[2048];
-			if (sscanf(buf, "%u %u,%u %d %2047s", &fam, &n, &es, &op, args) != 5) continue;
-			std::vector<std::string> a;
-			char* save; for (char* t = strtok_r(args, ",", &save); t; t = strtok_r(nullptr, ",", &save)) a.push_back(t);
-			bool done = false;
-			for (auto* reg : {&g_small, &g_large})
-				for (auto& r : *reg) if (!done && r->n == n && r->es == es) { emit(*r, op, a); done = true; }
-			if (!done) printf("# no such configuration posit<%u,%u> in this driver\n", n, es);
-		}
-	}
-	return 0;
+	return drv_main(argc, argv);
 }
